@@ -21,7 +21,7 @@ func init() {
 				"(reach) the base-coin value of the fee is added to the reward pool (C01.fee: rewardPool.Add of price / the fee swap's output); (burn) ticker-creation fees: RunTx subtracts symbolPrice from the reward pool and credits the same value to the zero address, only for CreateCoin/CreateToken, with symbolPrice = MulGasPrice(PayForSymbol(commissions)) (converted like the fee). " +
 				"(route) every CalculateCommission call compares the pool GetSwapper(X, base) with the reserve of GetCoin(X) for one and the same coin X — the inputs of the cheaper-route choice agree. NOT decided: that the cheaper of pool/reserve route is numerically the cheaper one, rounding of conversions.",
 			Assumptions: stdAssumptions,
-			Rules:       []string{"C27.table", "C27.cover", "C27.formula", "C27.burn", "C27.route", "C27.quote", "C27.order"},
+			Rules:       []string{"C27.table", "C27.cover", "C27.formula", "C27.burn", "C27.route", "C27.quote", "C27.order", "C27.first"},
 		},
 		Run: runC27,
 	})
@@ -51,6 +51,7 @@ func runC27(c *core.Ctx) {
 	defer checkRouteInputs(c, "C27.route")
 	defer checkPoolQuote(c, "C27.quote")
 	defer checkGasPriceBeforeConversion(c, "C27.order")
+	defer checkFeeBeforeTrade(c, "C27.first")
 	priceT := c.Named(core.PkgState+"/commission", "Price")
 	if priceT == nil {
 		c.Unk("C27.table", "commission.Price", token.NoPos, "type not found")
@@ -647,4 +648,47 @@ func checkGasPriceBeforeConversion(c *core.Ctx, rule string) {
 			"tx.MulGasPrice is applied to an amount that already went through the pool conversion: gasPrice × sell(x) instead of sell(gasPrice × x)")
 	}
 	c.Floor(rule, n, 2, "price-coin conversions in RunTx")
+}
+
+// checkFeeBeforeTrade — C27.first. The amount of the fee is quoted (CalculateCommission) and the
+// validation phase simulates "fee conversion first, then the transaction's own trades" on the pool
+// as it stands before the transaction. The deliver block therefore takes the fee — converts it in
+// the pool or burns reserve, debits it, adds it to the reward pool — BEFORE any trade of its own:
+// a trade of the transaction that runs first moves the very pool the quoted fee is sold in, and
+// the validators then receive something other than gas price × table price (or the sender pays
+// more than the limit that was checked). Decided per live handler: neither the fee's conversion
+// (the sale of tx.CommissionCoin() for the base coin) nor the burn of its reserve can be
+// preceded, on any path of the deliver block, by another Swap-module mutator of the transaction.
+func checkFeeBeforeTrade(c *core.Ctx, rule string) {
+	n := 0
+	for _, m := range LiveModels(c, rule) {
+		// where the fee is taken: its conversion in the pool, or the burn of reserve
+		var fees, trades []*MutSite
+		for _, mu := range m.Mutators {
+			isFeeCoin := mu.Site.Arg(0) != nil && strings.HasSuffix(core.Path(mu.Site.Arg(0)), "CommissionCoin()")
+			switch {
+			case (mu.Module == "Swap" || mu.Module == "Swapper") && isFeeCoin && strings.Contains(core.Path(mu.Site.Arg(1)), "GetBaseCoinID()"):
+				fees = append(fees, mu)
+			case mu.Module == "Coins" && mu.Method == "SubReserve" && isFeeCoin:
+				fees = append(fees, mu)
+			case mu.Module == "Swap" || mu.Module == "Swapper":
+				trades = append(trades, mu)
+			}
+		}
+		if len(trades) == 0 || len(fees) == 0 {
+			continue
+		}
+		n++
+		bad := ""
+		for _, t := range trades {
+			for _, f := range fees {
+				if instrReaches(t.Site.Instr, f.Site.Instr) {
+					bad = t.Method + " at " + c.PosStr(t.Site.Pos())
+				}
+			}
+		}
+		c.Check(bad == "", rule, m.H.TypeName+".Run/fee-first", fees[0].Site.Pos(), fmt.Sprintf("the fee is converted or burnt before the transaction's %d pool operations", len(trades)),
+			"the transaction's own pool operation ("+bad+") can run before the fee is converted: the fee quoted and validated on the untouched pool is then sold on a pool this transaction has already moved")
+	}
+	c.Floor(rule, n, 5, "live handlers that trade in pools")
 }
